@@ -217,6 +217,7 @@ def run(ch: Checker) -> None:
     chunk_decoder_checks(ch, 'C15.7', 'C15.7', 'C15.7')
     ch.import_rules('C06', {'C06.6': 'C15.8'}, 'parse(build(x)) has x\'s headers only if the builders do not write into a header map shared between messages')
     ch.import_rules('C03', {'C03.7': 'C15.9'}, 'the decoder agrees with a reference on every piecewise feed only if a live chunk decoder is never taken for absent')
+    ch.import_rules('C03', {'C03.6': 'C15.10'}, 'parse() followed by build() reproduces a message only if the parser does not declare it complete while part of it is still unread')
 
     # C15.5 / C15.3 update_body
     ub = prog.own_method('HttpParser', 'update_body')
